@@ -60,9 +60,40 @@ def syntax_class(op, impl):
         is_prefix = nxt != b"" and nxt.lower() == bytes([f["prefix"]]).lower()
         if not is_prefix:
             return "base-prefix-swallows-leading-zero"
-    # 3. separator-capable format, separator-free input: components without separator flags mis-count 8-digit blocks
-    if k in ("pf", "pn") and f["sep"] != 0 and not sep_in_input and (not f["sep_int"] or not f["sep_frac"]):
-        digits = sum(1 for c in body if chr(c).isalnum())
-        if digits >= 8:
+    # 3. separator-capable format: a component WITHOUT separator flags mis-counts the 8-digit blocks it parses
+    if k in ("pf", "pn") and f["sep"] != 0 and (not f["sep_int"] or not f["sep_frac"]):
+        t = op.split(" ")
+        dp = int(t[6]) if k == "pf" else 46
+        expc = int(t[5]) if k == "pf" else 101
+        mant = body
+        for i, c in enumerate(body):
+            if c in (expc, expc ^ 0x20) and f["radix"] <= 14 or (c == expc and f["radix"] > 14):
+                mant = body[:i]
+                break
+        ip, _, fp = mant.partition(bytes([dp]))
+        nd = lambda part: sum(1 for c in part if chr(c).isalnum())
+        if (not f["sep_int"] and nd(ip) >= 8) or (not f["sep_frac"] and nd(fp) >= 8):
             return "sep-format-uncounted-8digit-block"
     return None
+
+
+def debug_class(op, impl):
+    """classes of debug-assertion panics in the parsers (C10, dbg profile only)"""
+    k, ty, f, partial, inp = parse_op(op)
+    if f is None or not impl.startswith("panic"):
+        return None
+    t = op.split(" ")
+    sep = f["sep"]
+    low = lambda c: bytes([c]).lower() if c else b""
+    controls = [f["prefix"], f["suffix"]]
+    if k == "pf":
+        controls.append(int(t[5]))      # exponent character of the options
+        controls.append(int(t[6]))      # decimal point
+    if sep and any(c and low(c) == low(sep) for c in controls):
+        return "sep-case-equals-control-char"
+    comps = (f["sep_int"], f["sep_frac"], f["sep_exp"])
+    if k == "pi" and sep and f["suffix"]:
+        return "int-suffix-with-separator"
+    if sep and any(("i" in c and "t" in c and "c" in c and "l" not in c) for c in comps):
+        return "sep-itc-without-leading"
+    return syntax_class(op, "err")      # e.g. the uncounted 8-digit block trips a debug_assert
